@@ -437,6 +437,9 @@ def _targets_names(t, out, strong=True):
             out.setdefault(base.id, False)
 
 
+LOCAL_MUTATORS = {"append", "extend", "insert", "add", "update", "setdefault", "pop", "remove", "clear", "sort", "reverse", "fill"}
+
+
 def defs_of(node):
     """Variables (re)defined at a CFG node: {name: strong?}."""
     out = {}
@@ -457,6 +460,10 @@ def defs_of(node):
         elif isinstance(s, ast.Delete):
             for t in s.targets:
                 _targets_names(t, out)
+        elif isinstance(s, ast.Expr) and isinstance(s.value, ast.Call):
+            fn = s.value.func
+            if isinstance(fn, ast.Attribute) and fn.attr in LOCAL_MUTATORS and isinstance(fn.value, ast.Name):
+                out.setdefault(fn.value.id, False)
         if not isinstance(s, (ast.FunctionDef, ast.AsyncFunctionDef, ast.ClassDef)):
             for sub in ast.walk(s):
                 if isinstance(sub, ast.NamedExpr):
